@@ -166,6 +166,9 @@ pub enum FontLoadError {
 #[derive(Debug, Error)]
 #[non_exhaustive]
 pub enum LayerLoadError {
+    /// Two glyphs in contents.plist use the same file.
+    #[error("the file name '{0}' is used by more than one glyph")]
+    DuplicateGlyphFileName(PathBuf),
     /// Loading a glyph from a path failed.
     #[error("failed to load glyph '{name}' from '{path}'")]
     Glyph {
